@@ -132,6 +132,19 @@ func (c *Ctx) Assume(t *Term) {
 	if t.IsTrue() {
 		return
 	}
+	// conjunctions are recorded conjunct by conjunct (smaller, separately triggered facts)
+	if t.Op == "and" {
+		for _, a := range t.Args {
+			c.Assume(a)
+		}
+		return
+	}
+	if t.Op == "=>" && len(t.Args) == 2 && t.Args[1].Op == "and" {
+		for _, a := range t.Args[1].Args {
+			c.Assume(Implies(t.Args[0], a))
+		}
+		return
+	}
 	// identical assumptions (type facts of repeated heap reads) are recorded once
 	k := t.String()
 	if c.assumeSeen == nil {
